@@ -463,12 +463,17 @@ func Denote(v interface{}) *D {
 }
 
 type denoter struct {
-	stack map[uintptr]int
+	memo map[memoKey]*D
+}
+
+type memoKey struct {
+	p uintptr
+	t reflect.Type
 }
 
 // DenoteValue is Denote for a reflect.Value.
 func DenoteValue(v reflect.Value) *D {
-	dn := &denoter{stack: map[uintptr]int{}}
+	dn := &denoter{memo: map[memoKey]*D{}}
 	return dn.denote(v, 0)
 }
 
@@ -515,7 +520,7 @@ func (dn *denoter) denote(v reflect.Value, depth int) *D {
 	if !v.IsValid() {
 		return &D{K: KNil}
 	}
-	if depth > 150 {
+	if depth > 100000 {
 		return &D{K: KRef}
 	}
 	t := v.Type()
@@ -578,13 +583,15 @@ func (dn *denoter) denote(v reflect.Value, depth int) *D {
 		if t.Elem() == tList {
 			return dn.denote(v.Elem(), depth+1)
 		}
-		p := v.Pointer()
-		if _, ok := dn.stack[p]; ok {
-			return &D{K: KRef}
+		// pointers have identity: shared and cyclic structures denote shared and cyclic
+		// graphs (compared by bisimulation in DEqual)
+		k := memoKey{v.Pointer(), t}
+		if d, ok := dn.memo[k]; ok {
+			return d
 		}
-		dn.stack[p] = depth
-		d := dn.denote(v.Elem(), depth+1)
-		delete(dn.stack, p)
+		d := &D{}
+		dn.memo[k] = d
+		*d = *dn.denote(v.Elem(), depth+1)
 		return d
 	case reflect.Interface:
 		if v.IsNil() {
@@ -668,13 +675,19 @@ func (dn *denoter) structFields(v reflect.Value, d *D, depth int) {
 // number that rounds to the same float32; a string of one character equals itself however it was tagged; an
 // object equals a map with the same alias→value pairs; NaN ≡ NaN; −0 ≡ +0.
 func DEqual(a, b *D) string {
-	return dequal(a, b, 0, "", false)
+	c := &cmp{seen: map[[2]*D]bool{}}
+	return c.dequal(a, b, 0, "", false)
+}
+
+type cmp struct {
+	seen map[[2]*D]bool
 }
 
 // DEqualLoose additionally lets an integer equal a float that holds exactly that integer
 // (used where the destination type, not the wire tag, decides the Go type).
 func DEqualLoose(a, b *D) string {
-	return dequal(a, b, 0, "", true)
+	c := &cmp{seen: map[[2]*D]bool{}}
+	return c.dequal(a, b, 0, "", true)
 }
 
 func emptyD(d *D) bool {
@@ -734,9 +747,16 @@ func numEq(a, b *D, loose bool) bool {
 	return false
 }
 
-func dequal(a, b *D, depth int, path string, loose bool) string {
-	if depth > 160 {
-		return ""
+func (c *cmp) dequal(a, b *D, depth int, path string, loose bool) string {
+	if a.K == KList || a.K == KMap || a.K == KObj {
+		k := [2]*D{a, b}
+		if c.seen[k] {
+			return "" // already being compared (cycle) or compared (sharing)
+		}
+		c.seen[k] = true
+	}
+	if len(path) > 200 {
+		path = "…" + path[len(path)-150:]
 	}
 	if a.K == KRef || b.K == KRef {
 		return "" // cycles are checked by the typed comparison / bisimulation, not here
@@ -752,7 +772,7 @@ func dequal(a, b *D, depth int, path string, loose bool) string {
 		}
 		return ""
 	case (a.K == KMap || a.K == KObj) && (b.K == KMap || b.K == KObj):
-		return mapEq(a, b, depth, path, loose)
+		return c.mapEq(a, b, depth, path, loose)
 	}
 	if a.K != b.K {
 		return fmt.Sprintf("%s: %s vs %s", path, a, b)
@@ -778,7 +798,7 @@ func dequal(a, b *D, depth int, path string, loose bool) string {
 			return fmt.Sprintf("%s: list len %d vs %d", path, len(a.List), len(b.List))
 		}
 		for i := range a.List {
-			if why := dequal(a.List[i], b.List[i], depth+1, fmt.Sprintf("%s[%d]", path, i), loose); why != "" {
+			if why := c.dequal(a.List[i], b.List[i], depth+1, fmt.Sprintf("%s[%d]", path, i), loose); why != "" {
 				return why
 			}
 		}
@@ -791,9 +811,6 @@ func keyString(d *D) string {
 	case KInt:
 		return "n:" + d.I.String()
 	case KFloat:
-		if d.F == math.Trunc(d.F) && !math.IsInf(d.F, 0) && math.Abs(d.F) < 1e18 {
-			return "n:" + new(big.Float).SetFloat64(d.F).Text('f', 0)
-		}
 		if d.F32 {
 			return fmt.Sprintf("f:%v", float32(d.F))
 		}
@@ -823,7 +840,7 @@ func keyString(d *D) string {
 	return fmt.Sprintf("?%d", d.K)
 }
 
-func mapEq(a, b *D, depth int, path string, loose bool) string {
+func (c *cmp) mapEq(a, b *D, depth int, path string, loose bool) string {
 	ka := func(d *D, i int) string {
 		if d.K == KObj {
 			return "s:" + d.Field[i]
@@ -856,7 +873,7 @@ func mapEq(a, b *D, depth int, path string, loose bool) string {
 			i := ai[k]
 			if a.K != KObj {
 				for jj := range b.Vals {
-					if b.K != KObj && dequal(a.Keys[i], b.Keys[jj], depth+1, "", loose) == "" {
+					if b.K != KObj && (&cmp{seen: map[[2]*D]bool{}}).dequal(a.Keys[i], b.Keys[jj], depth+1, "", loose) == "" {
 						found = jj
 						break
 					}
@@ -867,7 +884,7 @@ func mapEq(a, b *D, depth int, path string, loose bool) string {
 			}
 			j = found
 		}
-		if why := dequal(a.Vals[ai[k]], b.Vals[j], depth+1, path+"["+clip(k)+"]", loose); why != "" {
+		if why := c.dequal(a.Vals[ai[k]], b.Vals[j], depth+1, path+"["+clip(k)+"]", loose); why != "" {
 			return why
 		}
 	}
